@@ -355,8 +355,53 @@ def TS.write (t : TS) (data : Bytes) (consumed : Bytes → Nat) : Outcome TS :=
       | .panic p => .panic p
     else .ok { t with hasBufferedData := false }
 
-/-- Bytes received and not yet handed over for good: what `end` will still parse
-    (transform_stream/mod.rs:183-187). -/
-def TS.retained (t : TS) : Nat := if t.hasBufferedData then t.buffer.len else 0
+/-- The bytes received and not yet consumed by the parser: what the next `write` prepends to its
+    data and what `end` will still parse (transform_stream/mod.rs:102-103, 183-187). -/
+def TS.pending (t : TS) : Bytes := if t.hasBufferedData then t.buffer.data else []
+
+/-- Number of retained bytes. -/
+def TS.retained (t : TS) : Nat := t.pending.length
+
+/-- `TransformStream::new` as far as the buffer goes (transform_stream/mod.rs:66-77). -/
+def TS.new (debug : Bool) (M prealloc : Nat) : Outcome TS :=
+  match Arena.new debug (Limiter.new M) prealloc with
+  | .ok (l, a) => .ok { lim := l, buffer := a, hasBufferedData := false }
+  | .err c (l, a) => .err c { lim := l, buffer := a, hasBufferedData := false }
+  | .panic p => .panic p
+
+/-- Bytes a successful `write` hands to the sink when nothing is captured or rewritten
+    (`flush_remaining_input(chunk, consumed_byte_count)`, transform_stream/mod.rs:146-148). -/
+def TS.writeOut (t : TS) (data : Bytes) (consumed : Bytes → Nat) : Nat :=
+  consumed (t.pending ++ data)
+
+/-- A sequence of writes, stopping at the first one that does not return `Ok` (the rewriter is
+    poisoned then). Per executed write: result, state after, total bytes handed to the sink. -/
+def TS.run (t : TS) (consumed : Bytes → Nat) : List Bytes → Nat → List (Res × TS × Nat)
+  | [], _ => []
+  | d :: rest, out =>
+    match t.write d consumed with
+    | .ok t' => (.ok, t', out + t.writeOut d consumed) :: t'.run consumed rest (out + t.writeOut d consumed)
+    | .err c t' =>
+      -- a failing `append` happens before parsing (nothing flushed); a failing `init_with` happens
+      -- after `flush_remaining_input` (transform_stream/mod.rs:146-153)
+      [(.err c, t', if t.hasBufferedData then out else out + t.writeOut d consumed)]
+    | .panic p => [(.panic p, t, out)]
+
+/-- The tag scanner's answer on the alphabet {`<`, `>`, anything else = a letter}: everything is
+    consumed except a tag that is still open at the end of the chunk (from its `<` on). Used by lane
+    `memts` as the parser oracle of `TS.write`; states: 0 = data, 1 = tag open, 2 = tag name. -/
+def scanConsumedGo : Bytes → (pos state start : Nat) → Nat
+  | [], pos, state, start => if state = 0 then pos else start
+  | b :: rest, pos, state, start =>
+    if state = 0 then
+      if b = 60 then scanConsumedGo rest (pos + 1) 1 pos else scanConsumedGo rest (pos + 1) 0 start
+    else if state = 1 then
+      if b = 60 then scanConsumedGo rest (pos + 1) 1 pos
+      else if b = 62 then scanConsumedGo rest (pos + 1) 0 start
+      else scanConsumedGo rest (pos + 1) 2 start
+    else
+      if b = 62 then scanConsumedGo rest (pos + 1) 0 start else scanConsumedGo rest (pos + 1) 2 start
+
+def scanConsumed (chunk : Bytes) : Nat := scanConsumedGo chunk 0 0 0
 
 end LolHtml.Model.Memory
